@@ -52,6 +52,8 @@ pub struct ClientSim {
     pub panicked: bool,
     /// client emissions queued by the driver: (type, id, slot)
     pub pending_emits: Vec<(String, u32, Option<String>)>,
+    /// pre-spawned entities already used in a mapping (one mapping each)
+    pub used_pre: std::collections::BTreeSet<String>,
 }
 
 #[derive(Default, Clone)]
@@ -183,6 +185,7 @@ impl Sim {
                 prespawned: BTreeMap::new(),
                 panicked: false,
                 pending_emits: Vec::new(),
+                used_pre: Default::default(),
             });
         }
         let mut slots = BTreeMap::new();
@@ -343,10 +346,24 @@ impl Sim {
 
     pub fn map_prespawned(&mut self, c: &str, e: &str, p: &str) -> bool {
         let ci = self.ci(c);
-        let (Some(ce), Some(se)) = (self.clients[ci].entity, self.server_entity(e)) else { return false };
+        let (Some(ce), Some(se)) = (self.clients[ci].entity, self.alive(e)) else { return false };
         let Some(&pe) = self.clients[ci].prespawned.get(p) else { return false };
+        // one mapping per server entity and per pre-spawned entity
+        if self.server.world().get::<ClientEntityMap>(ce).is_some_and(|m| m.iter().any(|&(s, c)| s == se || c == pe)) {
+            return false;
+        }
+        if self.clients[ci].used_pre.contains(p) || self.clients[ci].used_pre.contains(e) {
+            return false;
+        }
+        // C16's premise: the mapping is registered no later than the tick in which the entity first
+        // becomes visible to the client, i.e. the server has not sent the entity to it yet
+        if self.server.world().get::<ClientTicks>(ce).is_some_and(|t| t.verif_mutation_ticks().iter().any(|(e, _)| *e == se)) {
+            return false;
+        }
         if let Some(mut map) = self.server.world_mut().get_mut::<ClientEntityMap>(ce) {
             map.insert(se, pe);
+            self.clients[ci].used_pre.insert(p.to_string());
+            self.clients[ci].used_pre.insert(e.to_string());
             true
         } else {
             false
@@ -406,6 +423,7 @@ impl Sim {
             }
         }
         cl.prespawned.clear();
+        cl.used_pre.clear();
     }
 
     pub fn authorize(&mut self, c: &str) -> bool {
@@ -438,6 +456,7 @@ impl Sim {
                 }
             }
             cl.prespawned.clear();
+            cl.used_pre.clear();
             // the server's `reset` despawns the client entities on its next frame
         }
     }
@@ -1041,7 +1060,12 @@ impl Sim {
                        "ents": ents.unwrap_or_else(|e| json!({"?": e}))})
             })
             .collect();
+        let mut pre = serde_json::Map::new();
+        for (n, &pe) in &c.prespawned {
+            pre.insert(n.clone(), json!(w.get_entity(pe).is_ok()));
+        }
         json!({
+            "pre": pre,
             "status": status,
             "updTick": w.resource::<ServerUpdateTick>().get(),
             "ents": ents,
